@@ -19,10 +19,16 @@
            watched directory removed / moved away: everything recorded under it is deleted       PROVED (_removed_directory_)
            directory that (re)appears and is a key of `watches`: watch installed, files directly
                inside it queued                                                                  PROVED (_appeared_directory_)
-           deeper levels of the rescan, pending watches created by dir_loop                     model + correspondence only
+           every level of the breadth-first rescan (fuel adequacy, all duplicate-free trees)      PROVED (_all_levels_)
+           the watch set over whole operation sequences (AsyncInotifyWrapper.watches versus the
+               kernel's watches, explicit inotify queue)                                         REFUTED (W1, W2), swept
+               on the fragment without renames; pending watches created by dir_loop: correspondence only
+     (5) composition: fold on the old state + FAILED reset + commit + build = reset + env rescan +
+           file/nglob rescan + build, given (4) as the file-system part of Covers                 PROVED (_rebuild_equals_restart)
      and (2) needs `detached_unmatched` while the commit re-hashes detached nodes: REFUTED without it (D15). *)
 From Coq Require Import List NArith Bool.
-From SV Require Import lib.Bytes gen.GenWatch model.Watch proofs.WatchProofs.
+From SV Require Import lib.Bytes gen.GenWatch model.Watch model.WatchBuild model.WatchSet
+  proofs.WatchProofs proofs.WatchDeep proofs.WatchBuildProofs proofs.WatchSetProofs.
 Import ListNotations.
 Open Scope N_scope.
 
@@ -120,6 +126,39 @@ Theorem C14_appeared_directory_children_covered :
     forall x, t_is_file t x = true -> is_child d x = true -> In (mk_item Updated x false) (snd r).
 Proof. exact appeared_dir_children_covered. Qed.
 
+(* (4), EVERY level: the fuel process_event_gen gives the breadth-first rescan is adequate for every tree
+   without duplicate entries.  For a directory d that appears and every directory x at or below d such that
+   all directories from d down to x are keys of `watches` (installed or pending; exactly those the loop
+   `while len(paths) > 0` descends into): afterwards the watch of x is installed, every regular file
+   directly inside x is queued UPDATED, and (code shape with isdir_emits_self) x itself is queued; the keys of
+   `watches` are unchanged. *)
+Theorem C14_appeared_directory_all_levels_covered :
+  forall (self : bool) (t : tree) (w : watches) (d : path) (m : N),
+    NoDup (map fst t) -> created_mask m ->
+    let r := process_event_gen self t w (mk_event m d) in
+    (forall x, reach t (is_key w) d x ->
+       w_get (fst r) x = Some true /\
+       (forall y, t_is_file t y = true -> is_child x y = true -> In (mk_item Updated y false) (snd r)) /\
+       (self = true -> In (mk_item Updated (dir_label x) false) (snd r))) /\
+    (forall x, is_key (fst r) x = is_key w x).
+Proof.
+  intros self t w d m ND Hm r. split.
+  - intros x Rx. exact (appeared_dir_all_levels_covered self t w d m ND Hm x Rx).
+  - exact (appeared_dir_keys_unchanged self t w d m ND Hm).
+Qed.
+
+Example C14_all_levels_example :
+  reach deep_t (is_key deep_w) [100] [100;47;101;47;104] /\
+  NoDup (map fst deep_t) /\
+  snd (process_event_gen true deep_t deep_w (mk_event (M_MOVED_TO + M_ISDIR) [100]))
+  = [mk_item Updated [100;47] false; mk_item Updated [100;47;102] false;
+     mk_item Updated [100;47;101;47] false; mk_item Updated [100;47;101;47;103] false;
+     mk_item Updated [100;47;101;47;104;47] false; mk_item Updated [100;47;101;47;104;47;105] false].
+Proof.
+  split; [exact deep_reach|]. split; [|vm_compute; reflexivity].
+  repeat constructor; cbn; intuition discriminate.
+Qed.
+
 (* (4), directories that themselves match a pattern: covered exactly when the ISDIR branch queues the
    directory itself.  The generated flag isdir_emits_self says which shape the code has. *)
 Theorem C14_matching_directory_covered_iff_self_emitted :
@@ -177,6 +216,94 @@ Theorem C14_update_then_parent_moved_away_refuted :
                           [mk_item Updated p false; mk_item DeletedParent d false] ws_empty in
     pmem p (ws_updated w) = true /\ pmem p (ws_deleted w) = false.
 Proof. exists g_stale, all_match, d_stale, p_stale. exact stale_update_survives_deleted_parent. Qed.
+
+(* (5) The whole reaction up to the dispatch of steps (model/WatchBuild.v).  Watch side: every queued item
+   (with or without during_build) is recorded against the state g the finished build phase left; then
+   start_build_phase makes the attached FAILED steps pending; then run_once commits; then the build phase.
+   Restart side: reset_interrupted_steps, rescan_env_vars, rescan_files, rescan_nglobs, then the same build
+   phase.  For EVERY item list: if no step is RUNNING/CHECKING, the environment of the new director equals
+   the recorded values (the one legitimate difference: file events do not carry environment changes, see
+   C14_env_change_seen_by_restart_only), the FAILED reset takes no relevance away, the state after it is
+   WellFormed, and the two sets cover the file-system difference (CoversFS: the part of Covers that is
+   about the file system; relevance and disjointness of the sets are DERIVED from C14_fold_last_event_wins),
+   then both sides hand the same graph state to the build phase, hence the same outcome. *)
+Theorem C14_rebuild_equals_restart :
+  forall (R : Type) on_action on_nglob_change (mark_step_pending : str -> SR R -> SR R)
+         hash_fs exists_fs matches universe (getenv : str -> option str)
+         (outcome : Type) (build : G R -> outcome) (g : G R) (items : list item),
+    let w := fold_changes (change_is_relevant (WatchBuild.below R) matches g) (relevant_paths_under (WatchBuild.below R) g) items ws_empty in
+    let g1 := fail_watch R mark_step_pending g in
+    NoDup (map f_path (g_files g)) -> matches_sound R matches g -> matches_unowned R g ->
+    no_step_in_flight R g -> fail_keeps_relevant R mark_step_pending matches g ->
+    env_unchanged R getenv g1 ->
+    WellFormed (WatchBuild.below R) matches g1 ->
+    CoversFS R hash_fs exists_fs matches universe commit_attached_only g1 (ws_updated w) (ws_deleted w) ->
+    (commit_attached_only = false -> detached_unmatched (WatchBuild.below R) matches g1) ->
+    watch_rebuild_pre R on_action on_nglob_change mark_step_pending hash_fs matches universe g items
+    = restart_pre R on_action on_nglob_change mark_step_pending hash_fs exists_fs matches universe getenv g /\
+    watch_rebuild R on_action on_nglob_change mark_step_pending hash_fs matches universe outcome build g items
+    = restart R on_action on_nglob_change mark_step_pending hash_fs exists_fs matches universe getenv outcome build g.
+Proof.
+  intros R oa on msp hf ef mt un ge oc bd g items w g1 ND MS MU NF FK EU WF CF DU. split.
+  - unfold watch_rebuild_pre, watch_commit. fold w. fold g1.
+    apply (rebuild_pre_equals_restart_pre R oa on msp hf ef mt un ge commit_attached_only g items); assumption.
+  - apply (rebuild_equals_restart R oa on msp hf ef mt un ge oc bd g items); assumption.
+Qed.
+
+(* the legitimate difference: a variable a step uses changed between the two directors *)
+Theorem C14_env_change_seen_by_restart_only :
+  watch_rebuild_pre unit id_action' id_nglob' env_msp (fun _ => None) (fun _ _ => false) [] env_g []
+  = Some env_g /\
+  restart_pre unit id_action' id_nglob' env_msp (fun _ => None) (fun _ => false) (fun _ _ => false) [] env_new env_g
+  = Some (mk_g [] [] ([mk_srow env_step true SPending], ([mk_erow env_step true [86] (Some [50])], tt))).
+Proof. exact env_change_seen_by_restart_only. Qed.
+
+(* (4), the watch set over whole histories (model/WatchSet.v: directories with identity, kernel watches on
+   inodes, explicit inotify queue, rm_watch appends IGNORED at the tail).  Full invariant: after every history
+   of batches from an agreeing quiet state, `watches` says installed exactly for the directories the kernel
+   watches under their current path.  REFUTED: *)
+Theorem C14_watchset_invariant_refuted : ~ watchset_invariant_full.
+Proof. exact watchset_invariant_refuted. Qed.
+
+(* W1: mv d1 d9; mkdir d1; mkdir d1/sub (the wrapper keeping up): the new d1/sub is recorded as installed and
+   has no kernel watch. *)
+Theorem C14_watchset_stale_subdirectory_watch_refuted :
+  s_queue s_W1 = [] /\ agree s_W1 = true /\
+  let s := run_batches s_W1 h_W1 in
+  s_queue s = [] /\
+  ino_of s p_d1sub = Some 4 /\ installed (s_w s) p_d1sub = true /\
+  existsb (fun k => fst k =? 4) (s_kw s) = false /\
+  agree s = false /\ needed_watched (fun p => str_eqb p p_d1sub) s = false.
+Proof. exact stale_subdirectory_watch_refuted. Qed.
+
+(* W2: `mv d1 d9; mkdir d1` in one batch: the late IGNORED resets the entry of the new watch; the next
+   rename of d1 queues no DELETED_PARENT (one instead of two in the whole history); one operation per batch: fine. *)
+Theorem C14_watchset_late_ignored_refuted :
+  agree s_W2 = true /\
+  (let s := run_batches s_W2 [[OMove p_d1 p_d9]; [OMkdir p_d1]; [OMove p_d1 p_d8]] in
+   agree s = true /\ length (filter (is_deleted_parent p_d1) (s_items s)) = 2%nat) /\
+  (let s := run_batches s_W2 [[OMove p_d1 p_d9; OMkdir p_d1]] in
+   s_queue s = [] /\ installed (s_w s) p_d1 = false /\ existsb (fun k => str_eqb (snd k) p_d1) (s_kw s) = true /\
+   agree s = false) /\
+  (let s := run_batches s_W2 [[OMove p_d1 p_d9; OMkdir p_d1]; [OMove p_d1 p_d8]] in
+   length (filter (is_deleted_parent p_d1) (s_items s)) = 1%nat).
+Proof. exact late_ignored_clobbers_new_watch_refuted. Qed.
+
+(* D10d in the state machine: the dictionary agrees with the kernel, and a directory that can contain a
+   match of "*/x.dat" is not watched. *)
+Theorem C14_watchset_new_directory_not_watched_refuted :
+  needed_watched depth1 s_D10d = true /\
+  let s := run_batches s_D10d [[OMkdir p_d5]] in
+  agree s = true /\ needed_watched depth1 s = false.
+Proof. exact new_directory_not_watched_refuted. Qed.
+
+(* the fragment where the invariant holds, bounded sweep (evidence, not a statement about all histories):
+   every history of up to 4 mkdir/rmdir operations over a, a/b, c, one operation per batch; with renames
+   the sweep of length 3 already contains a counterexample. *)
+Example C14_watchset_fragment_sweep :
+  forallb (fun h => agree (run_batches s_sweep h)) (histories ops_plain 4) = true /\
+  forallb (fun h => agree (run_batches s_sweep h)) (histories (ops_plain ++ ops_moves) 3) = false.
+Proof. split; [exact sweep_without_renames | exact sweep_with_renames_finds_counterexample]. Qed.
 
 (* The generated tables are the ones the proofs rely on: a state the watcher finds relevant is one
    the rescan looks at, and the stricter during-build filter is a subset. *)
